@@ -151,7 +151,8 @@ def run_tlc(module, cfg=None, workers=16, env=None, timeout=900, simulate=None, 
     # every model / batch finishes in seconds to a few minutes on an idle machine; the limit only bounds a hung
     # TLC and is kept wide so that a loaded machine (several checks at once) does not turn into a failure
     timeout = max(int(timeout), int(os.environ.get('VERIF_TLC_MIN_TIMEOUT', '3000')))
-    cmd = ['timeout', str(timeout), 'java', '-XX:+UseParallelGC', '-Xss64m', '-Xmx' + heap, '-cp', TLA_CP, 'tlc2.TLC',
+    # (TLC leaves an empty tlc-<n> directory in java.io.tmpdir per run: keep them inside the scratch directory, which is removed at exit)
+    cmd = ['timeout', str(timeout), 'java', '-XX:+UseParallelGC', '-Xss64m', '-Xmx' + heap, '-Djava.io.tmpdir=' + md, '-cp', TLA_CP, 'tlc2.TLC',
            '-workers', str(workers), '-metadir', md, '-noGenerateSpecTE']
     if cfg:
         cmd += ['-config', cfg]
